@@ -24,8 +24,8 @@ ANCHOR_FILES = ["src/ropt/config/utils.py", "src/ropt/config/validated_types.py"
 RULE = ("case = one generated dictionary (valid, or valid + one invalidating mutation); non-trivial if validation was attempted and judged; distinct key = case index; "
         "monitor_counters: attributes and arrays attacked, fields compared after re-validation")
 ASSUMPTIONS = ["filter/estimator/sampler index maps are generated at full length (their broadcasting is not part of the statement)"]
-REQUIRED = {"quick": {"attrs_attacked": 20000, "arrays_attacked": 9000, "revalidate_fields_compared": 20000, "rejections_checked": 217, "canonical_checked": 682, "with_relative_perturbations": 144, "with_transform_context": 200, "with_negative_objective_weight": 100, "section_objects_reused": 600, "__nontrivial__": 900},
-            "thorough": {"attrs_attacked": 500000, "arrays_attacked": 241877, "revalidate_fields_compared": 500000, "rejections_checked": 5977, "canonical_checked": 18022, "with_relative_perturbations": 4147, "with_transform_context": 5000, "section_objects_reused": 15000, "__nontrivial__": 24000}}
+REQUIRED = {"quick": {"attrs_attacked": 20000, "arrays_attacked": 9000, "revalidate_fields_compared": 20000, "rejections_checked": 217, "canonical_checked": 682, "section_objects_compared_after_use": 3500, "with_relative_perturbations": 144, "with_transform_context": 200, "with_negative_objective_weight": 100, "section_objects_reused": 600, "__nontrivial__": 900},
+            "thorough": {"attrs_attacked": 500000, "arrays_attacked": 241877, "revalidate_fields_compared": 500000, "rejections_checked": 5977, "canonical_checked": 18022, "section_objects_compared_after_use": 90000, "with_relative_perturbations": 4147, "with_transform_context": 5000, "section_objects_reused": 15000, "__nontrivial__": 24000}}
 N = {"quick": 1500, "thorough": 40000}
 
 
@@ -365,15 +365,21 @@ def run_case(case, obs):
     classes = {"variables": _e.VariablesConfig, "objectives": _e.ObjectiveFunctionsConfig, "linear_constraints": _e.LinearConstraintsConfig,
                "nonlinear_constraints": _e.NonlinearConstraintsConfig, "realizations": _e.RealizationsConfig, "optimizer": _e.OptimizerConfig,
                "gradient": _e.GradientConfig}
-    # (the variables and non-linear constraint sections transform themselves in their own validators from the validation
-    # context, an object built outside a validation with that context is a different input: they stay dictionaries)
-    objs = {k: (classes[k](**v) if k in classes and isinstance(v, dict) and k not in ("variables", "nonlinear_constraints") else v) for k, v in d.items()}
+    # (since /repo commit 0dd02a0 an embedded section object is validated as a new object with the context of the parent, so
+    # every section can be handed over as an object - the variables and non-linear constraint sections, which transform
+    # themselves from the validation context, included)
+    objs = {k: (classes[k](**v) if k in classes and isinstance(v, dict) else v) for k, v in d.items()}
+    snap = {k: json.dumps(v.model_dump(round_trip=True), sort_keys=True, default=lambda o: o.tolist() if isinstance(o, np.ndarray) else str(o))
+            for k, v in objs.items() if k in classes and not isinstance(v, dict) and v is not None}
     first = dict(objs)
-    first["variables"] = dict(d["variables"])
-    lbs = np.broadcast_to(np.asarray(d["variables"].get("lower_bounds", -np.inf), dtype=float), (V,))
-    ubs = np.broadcast_to(np.asarray(d["variables"].get("upper_bounds", np.inf), dtype=float), (V,))
-    first["variables"]["lower_bounds"] = (lbs - 3.0).tolist()
-    first["variables"]["upper_bounds"] = (ubs + 5.0).tolist()
+    if rng.random() < 0.5:
+        # an earlier parent with other bounds ...
+        first["variables"] = dict(d["variables"])
+        lbs = np.broadcast_to(np.asarray(d["variables"].get("lower_bounds", -np.inf), dtype=float), (V,))
+        ubs = np.broadcast_to(np.asarray(d["variables"].get("upper_bounds", np.inf), dtype=float), (V,))
+        first["variables"]["lower_bounds"] = (lbs - 3.0).tolist()
+        first["variables"]["upper_bounds"] = (ubs + 5.0).tolist()
+    # ... or the very same variables object in both parents
     try:
         EnOptConfig.model_validate(first, context=None if tspec and rng.random() < 0.5 else (make_transforms(tspec) if tspec else None))
         used_before = True
@@ -381,6 +387,13 @@ def run_case(case, obs):
         used_before = False         # e.g. initial values now outside an integer domain: the objects were still handed over
     shared = EnOptConfig.model_validate(objs, context=make_transforms(tspec) if tspec else None)
     obs.count("section_objects_reused" if used_before else "section_objects_first_use")
+    # the section objects are validated (frozen) configuration objects themselves: validating a parent does not change them
+    for k, before in snap.items():
+        after = json.dumps(objs[k].model_dump(round_trip=True), sort_keys=True, default=lambda o: o.tolist() if isinstance(o, np.ndarray) else str(o))
+        obs.count("section_objects_compared_after_use")
+        if after != before:
+            obs.violation("frozen_section_object_changed_by_validating_a_parent", section=k, before=before[:300], after=after[:300])
+            return
     if not same(obs, cfg, shared, "cfg", "section-objects-used-before"):
         return
     obs.sample({"dict": {k: (v if k != "variables" else {kk: vv for kk, vv in v.items()}) for k, v in d.items()}, "transforms": tspec})
